@@ -77,6 +77,25 @@ def desugar(loc, relfile, fn_paths, rules, _pass=0, optional=()):
                     rewrites.append((a, b, new))
                     records.append({"fn": fp, "rule": "D52 X.iter().copied().collect()  =>  pv_collect_copied(&X)   (stub: a collection with the elements of X in order; the target type is the declared one)",
                                     "original": src[a:b], "rewritten": new})
+            if "D56" in rules:
+                # status lines of the FlatZinc output protocol: appended to the ghost local `pv_log` (declared by the contract file)
+                table = [('println!("==========");', 'pv_emit!(pv_log, Complete);'),
+                         ('println!("{MSG_UNSATISFIABLE}");', 'pv_emit!(pv_log, Unsat);'),
+                         ('println!("{MSG_UNKNOWN}");', 'pv_emit!(pv_log, Unknown);')]
+                seg = src[it["start"]:it["end"]]
+                covered_spans = []
+                for pat_txt, new in table:
+                    k = seg.find(pat_txt)
+                    while k >= 0:
+                        a, b = it["start"] + k, it["start"] + k + len(pat_txt)
+                        rewrites.append((a, b, new))
+                        covered_spans.append((k, k + len(pat_txt)))
+                        records.append({"fn": fp, "rule": "D56 println!(<status line>)  =>  pv_emit!(pv_log, ..);   (the unit's macro expands to proof { pv_log = pv_log.push(Marker::..); }; \"==========\" = Complete, {MSG_UNSATISFIABLE} = Unsat, {MSG_UNKNOWN} = Unknown; pv_log is a ghost local sequence declared at the start of the body, the output in program order)",
+                                        "original": src[a:b], "rewritten": new})
+                        k = seg.find(pat_txt, k + 1)
+                for m in re.finditer(r"\b(println|print|eprintln)!", seg):
+                    if not any(a <= m.start() < b for a, b in covered_spans):
+                        raise Undecided(f"{fp}: an output macro is not covered by the status-line table of rule D56")
             if "D55" in rules:
                 for m in re.finditer(r"\b([a-z_][a-z_0-9]*)\.into_iter\(\)\.collect\(\)", src[it["start"]:it["end"]]):
                     a, b = it["start"] + m.start(), it["start"] + m.end()
